@@ -690,7 +690,7 @@ pub fn ref_unpack(bytes: &[u8]) -> Result<Vec<u8>, String> {
         return Err(format!("source of {total} bytes is too large for the reference unpacker"));
     }
     let mut cache: Vec<Option<Vec<u8>>> = vec![None; dict.chunk_descriptors.len()];
-    let mut out = Vec::with_capacity(total as usize);
+    let mut out = Vec::with_capacity((total as usize).min(1 << 26));
     for &i in &dict.rebuild_order {
         let i = i as usize;
         if cache[i].is_none() {
@@ -1057,4 +1057,876 @@ pub fn conformance(bytes: &[u8], source: &[u8], req: &Requested) -> Vec<String> 
         }
     }
     is.finish()
+}
+
+// ------------------------------------------------------------------------------------------------
+// tests (these, and only these, may use bitar to cross-validate)
+// ------------------------------------------------------------------------------------------------
+#[cfg(test)]
+mod tests {
+    use super::*;
+
+    struct Rng(u64);
+    impl Rng {
+        fn next(&mut self) -> u64 {
+            self.0 ^= self.0 << 13;
+            self.0 ^= self.0 >> 7;
+            self.0 ^= self.0 << 17;
+            self.0
+        }
+        fn bytes(&mut self, n: usize) -> Vec<u8> {
+            (0..n).map(|_| (self.next() >> 24) as u8).collect()
+        }
+    }
+
+    /// Mix of incompressible, compressible and repeated regions.
+    fn sample_source(seed: u64, n: usize) -> Vec<u8> {
+        let mut r = Rng(seed | 1);
+        let mut v = Vec::with_capacity(n);
+        let block = r.bytes(3000);
+        while v.len() < n {
+            match r.next() % 4 {
+                0 => {
+                    let n = 1 + (r.next() % 5000) as usize;
+                    v.extend(r.bytes(n));
+                }
+                1 => v.extend(std::iter::repeat((r.next() & 0xff) as u8).take(1 + (r.next() % 6000) as usize)),
+                2 => v.extend_from_slice(&block),
+                _ => v.extend(b"the quick brown fox jumps over the lazy dog ".iter().cycle().take(1 + (r.next() % 4000) as usize)),
+            }
+        }
+        v.truncate(n);
+        v
+    }
+
+    fn fixed_cuts(len: usize, n: usize) -> Vec<usize> {
+        let mut v: Vec<usize> = (1..=len / n).map(|i| i * n).collect();
+        if len % n != 0 {
+            v.push(len);
+        }
+        v
+    }
+
+    fn sample_dicts() -> Vec<Dict> {
+        let full = Dict {
+            application_version: "0.13.0-ünï".to_string(),
+            source_checksum: (0u8..64).collect(),
+            source_total_size: u64::MAX,
+            chunker_params: Some(Params { chunk_filter_bits: 15, min_chunk_size: 16384, max_chunk_size: u32::MAX, rolling_hash_window_size: 64, chunk_hash_length: 64, chunking_algorithm: 1 }),
+            chunk_compression: Some(Comp { compression: 3, compression_level: 6 }),
+            rebuild_order: vec![0, 1, 0, 2, 300, u32::MAX, 0],
+            chunk_descriptors: vec![
+                Desc { checksum: vec![1, 2, 3, 4], archive_size: 10, archive_offset: 0, source_size: 20 },
+                Desc { checksum: vec![0xff; 64], archive_size: u32::MAX, archive_offset: u64::MAX, source_size: u32::MAX },
+                Desc { checksum: vec![], archive_size: 0, archive_offset: 1 << 40, source_size: 0 },
+                Desc::default(),
+            ],
+            metadata: vec![
+                ("".to_string(), vec![]),
+                ("k".to_string(), vec![0, 255, 128, 0]),
+                ("".to_string(), vec![7]),
+                ("zz".to_string(), vec![]),
+                ("a".to_string(), vec![b'x'; 300]),
+            ],
+            unknown: vec![],
+        };
+        let all_defaults_some = Dict { chunker_params: Some(Params::default()), chunk_compression: Some(Comp::default()), ..Dict::default() };
+        vec![Dict::default(), all_defaults_some, full]
+    }
+
+    fn enc_variants() -> Vec<EncOpts> {
+        let mut v = vec![];
+        for bits in 0..16u32 {
+            v.push(EncOpts {
+                legacy_magic: bits & 1 != 0,
+                chunk_data_offset: None,
+                inject_unknown: bits & 2 != 0,
+                unpacked_rebuild_order: bits & 4 != 0,
+                emit_defaults: bits & 8 != 0,
+            });
+        }
+        v
+    }
+
+    #[test]
+    fn codec_varint_edges() {
+        for v in [0u64, 1, 127, 128, 255, 300, 16383, 16384, u32::MAX as u64, 1 << 32, (1 << 63) - 1, 1 << 63, u64::MAX] {
+            let mut b = vec![];
+            put_varint(&mut b, v);
+            let expect_len = if v == 0 { 1 } else { (64 - v.leading_zeros() as usize + 6) / 7 };
+            assert_eq!(b.len(), expect_len, "{v}");
+            let mut r = Rd::new(&b);
+            assert_eq!(r.varint().unwrap(), v);
+            assert!(r.done());
+            // truncated
+            let mut r = Rd::new(&b[..b.len() - 1]);
+            assert!(r.varint().is_err(), "{v}");
+        }
+        // spec example
+        let mut b = vec![];
+        put_varint(&mut b, 150);
+        assert_eq!(b, [0x96, 0x01]);
+        // non-minimal encodings are valid
+        assert_eq!(Rd::new(&[0x80, 0x00]).varint().unwrap(), 0);
+        assert_eq!(Rd::new(&[0x81, 0x80, 0x80, 0x00]).varint().unwrap(), 1);
+        // 10 bytes: the last one may only carry one bit
+        let mut ten = vec![0xff; 9];
+        ten.push(0x01);
+        assert_eq!(Rd::new(&ten).varint().unwrap(), u64::MAX);
+        *ten.last_mut().unwrap() = 0x02;
+        assert!(Rd::new(&ten).varint().is_err());
+        *ten.last_mut().unwrap() = 0x81;
+        ten.push(0x00);
+        assert!(Rd::new(&ten).varint().is_err());
+        assert!(Rd::new(&[]).varint().is_err());
+        // keys
+        assert!(Rd::new(&[0x00]).key().is_err()); // field 0
+        assert_eq!(Rd::new(&[0x08]).key().unwrap(), (1, 0));
+        assert_eq!(Rd::new(&[0xc2, 0x3e]).key().unwrap(), (1000, 2));
+        assert!(Rd::new(&[0x80, 0x80, 0x80, 0x80, 0x10]).key().is_err()); // > u32
+    }
+
+    #[test]
+    fn codec_dict_roundtrip() {
+        for dict in sample_dicts() {
+            for o in enc_variants() {
+                let h = encode_header(&dict, &o);
+                let d = decode(&h).unwrap_or_else(|e| panic!("{o:?}: {e}"));
+                assert_eq!(d.magic, if o.legacy_magic { *LEGACY_MAGIC } else { *MAGIC });
+                assert_eq!(d.header_len, h.len());
+                assert_eq!(d.chunk_data_offset, h.len() as u64);
+                assert!(d.header_checksum_ok);
+                assert_eq!(d.dictionary_size as usize, encode_dict(&dict, &o).len());
+                assert_eq!(d.dictionary_size as usize + PRE_HEADER_LEN + TRAILER_LEN, h.len());
+                let mut got = d.dict.clone();
+                if o.inject_unknown {
+                    let nmsg = 1 + dict.chunk_descriptors.len() + dict.chunker_params.is_some() as usize + dict.chunk_compression.is_some() as usize;
+                    assert_eq!(d.unknown_fields, 2 * nmsg);
+                    assert_eq!(
+                        got.unknown,
+                        vec![Unknown { field: 15, wire: 0, raw: vec![7] }, Unknown { field: 1000, wire: 2, raw: vec![3, 0xde, 0x00, 0xad] }]
+                    );
+                    got.unknown.clear();
+                } else {
+                    assert_eq!(d.unknown_fields, 0);
+                }
+                assert_eq!(got, dict, "{o:?}");
+                assert_eq!(d.rebuild_order_packed, !(o.unpacked_rebuild_order && !dict.rebuild_order.is_empty()));
+                // kept unknown fields are re-emitted verbatim: decode(encode(decoded)) is a fixpoint
+                let plain = EncOpts { inject_unknown: false, ..o.clone() };
+                let again = decode(&encode_header(&d.dict, &plain)).unwrap();
+                assert_eq!(again.dict, d.dict);
+                // explicit chunk data offset
+                let o2 = EncOpts { chunk_data_offset: Some(u64::MAX - 5), ..o.clone() };
+                let d2 = decode(&encode_header(&dict, &o2)).unwrap();
+                assert_eq!(d2.chunk_data_offset, u64::MAX - 5);
+                assert!(d2.header_checksum_ok);
+            }
+        }
+        // default omission: an all-default dictionary is zero bytes, the minimal header is 86 bytes
+        assert!(encode_dict(&Dict::default(), &EncOpts::default()).is_empty());
+        assert_eq!(encode_header(&Dict::default(), &EncOpts::default()).len(), 86);
+        assert!(!encode_dict(&Dict::default(), &EncOpts { emit_defaults: true, ..Default::default() }).is_empty());
+        // a hand-checked encoding
+        let d = Dict { application_version: "a".into(), source_total_size: 300, rebuild_order: vec![0, 1, 128], ..Default::default() };
+        assert_eq!(encode_dict(&d, &EncOpts::default()), [0x0a, 1, b'a', 0x18, 0xac, 0x02, 0x32, 4, 0, 1, 0x80, 0x01]);
+        assert_eq!(
+            encode_dict(&d, &EncOpts { unpacked_rebuild_order: true, ..Default::default() }),
+            [0x0a, 1, b'a', 0x18, 0xac, 0x02, 0x30, 0, 0x30, 1, 0x30, 0x80, 0x01]
+        );
+    }
+
+    fn header_with_dict(dict_bytes: &[u8]) -> Vec<u8> {
+        assemble_header(dict_bytes, &EncOpts::default())
+    }
+
+    #[test]
+    fn codec_decode_rejects_malformed() {
+        let good = encode_header(&sample_dicts()[2], &EncOpts::default());
+        assert!(decode(&good).is_ok());
+        // every strict prefix fails, without panicking
+        for n in 0..good.len() {
+            assert!(decode(&good[..n]).is_err(), "prefix {n}");
+        }
+        // trailing bytes after the header are fine
+        let mut longer = good.clone();
+        longer.extend_from_slice(&[0u8; 100]);
+        assert_eq!(decode(&longer).unwrap().header_len, good.len());
+        // bad magic
+        let mut b = good.clone();
+        b[0] = b'X';
+        assert!(decode(&b).unwrap_err().contains("magic"));
+        // wrong checksum is reported, not an error
+        let mut b = good.clone();
+        *b.last_mut().unwrap() ^= 1;
+        assert!(!decode(&b).unwrap().header_checksum_ok);
+        let mut b = good.clone();
+        let n = b.len();
+        b[n - 70] ^= 1; // chunk data offset
+        assert!(!decode(&b).unwrap().header_checksum_ok);
+        // adversarial dictionary sizes
+        for sz in [u64::MAX, u64::MAX - 71, u64::MAX - 85, 1 << 63, (good.len() - 85) as u64, usize::MAX as u64] {
+            let mut b = good.clone();
+            b[6..14].copy_from_slice(&sz.to_le_bytes());
+            assert!(decode(&b).is_err(), "{sz}");
+        }
+        // malformed protobuf
+        let bad: Vec<(&str, Vec<u8>)> = vec![
+            ("truncated varint", vec![0x18, 0x80]),
+            ("truncated key", vec![0x80]),
+            ("length past end", vec![0x0a, 5, b'a']),
+            ("huge length", vec![0x12, 0xff, 0xff, 0xff, 0xff, 0xff, 0xff, 0xff, 0xff, 0xff, 0x01]),
+            ("wire mismatch string as varint", vec![0x08, 1]),
+            ("wire mismatch u64 as len", vec![0x1a, 1, 0]),
+            ("wire mismatch u64 as fixed64", vec![0x19, 0, 0, 0, 0, 0, 0, 0, 0]),
+            ("wire mismatch submessage", vec![0x20, 1]),
+            ("wire mismatch rebuild_order fixed32", vec![0x35, 0, 0, 0, 0]),
+            ("wire mismatch nested", vec![0x3a, 2, 0x1a, 0]),
+            ("invalid utf8", vec![0x0a, 2, 0xc3, 0x28]),
+            ("invalid utf8 map key", vec![0x42, 3, 0x0a, 1, 0xff]),
+            ("start group", vec![0x7b]),
+            ("end group", vec![0x7c]),
+            ("group nested", vec![0x22, 1, 0x7b]),
+            ("wire type 6", vec![0x7e]),
+            ("wire type 7", vec![0x7f, 0]),
+            ("field 0", vec![0x00, 0]),
+            ("truncated packed", vec![0x32, 1, 0x80]),
+            ("truncated fixed32 unknown", vec![0x7d, 0, 0, 0]),
+            ("truncated nested", vec![0x3a, 2, 0x18]),
+            ("varint overflow", vec![0x18, 0xff, 0xff, 0xff, 0xff, 0xff, 0xff, 0xff, 0xff, 0xff, 0x02]),
+        ];
+        for (what, dict) in bad {
+            let e = decode(&header_with_dict(&dict));
+            assert!(e.is_err(), "{what} was accepted: {:?}", e.map(|d| d.dict));
+        }
+        // unknown fields of every legal wire type are skipped, counted and kept
+        let dict = vec![0x78, 0x96, 0x01, 0x79, 1, 2, 3, 4, 5, 6, 7, 8, 0x7a, 2, 9, 9, 0x7d, 1, 2, 3, 4, 0x18, 5];
+        let d = decode(&header_with_dict(&dict)).unwrap();
+        assert_eq!(d.unknown_fields, 4);
+        assert_eq!(d.dict.source_total_size, 5);
+        assert_eq!(d.dict.unknown.iter().map(|u| (u.field, u.wire, u.raw.len())).collect::<Vec<_>>(), [(15, 0, 2), (15, 1, 8), (15, 2, 3), (15, 5, 4)]);
+        assert_eq!(encode_dict(&d.dict, &EncOpts::default()), [&[0x18, 5][..], &dict[..dict.len() - 2]].concat());
+    }
+
+    #[test]
+    fn codec_proto3_merge_semantics() {
+        let dict = vec![
+            0x18, 1, 0x18, 2, // source_total_size twice: last wins
+            0x22, 2, 0x08, 3, // chunker_params {filter_bits 3}
+            0x22, 4, 0x10, 9, 0x08, 4, // chunker_params {min 9, filter_bits 4}: merged
+            0x2a, 0, // empty chunk_compression: present with defaults
+            0x30, 5, 0x32, 2, 6, 7, 0x30, 8, 0x32, 0, // rebuild_order mixed packed / unpacked
+            0x3a, 4, 0x18, 1, 0x18, 2, // descriptor, archive_size twice
+            0x3a, 0, // empty descriptor
+            0x42, 0, // empty map entry
+            0x42, 8, 0x12, 1, 1, 0x0a, 1, b'k', 0x12, 0, // value, key, value again (last wins: empty)
+            0x42, 4, 0x78, 1, 0x0a, 0, // unknown in entry
+            0x18, 0x83, 0x80, 0x80, 0x80, 0x80, 0x80, 0x80, 0x80, 0x80, 0x01, // u64 with top bit
+            0x3a, 8, 0x28, 0x81, 0x80, 0x80, 0x80, 0x10, 0x20, 0, // source_size = 2^32 + 1 truncates to 1; explicit zero offset
+        ];
+        let d = decode(&header_with_dict(&dict)).unwrap();
+        let x = &d.dict;
+        assert_eq!(x.source_total_size, (1 << 63) | 3);
+        assert_eq!(x.chunker_params, Some(Params { chunk_filter_bits: 4, min_chunk_size: 9, ..Default::default() }));
+        assert_eq!(x.chunk_compression, Some(Comp::default()));
+        assert_eq!(x.rebuild_order, [5, 6, 7, 8]);
+        assert!(!d.rebuild_order_packed);
+        assert_eq!(x.chunk_descriptors.len(), 3);
+        assert_eq!(x.chunk_descriptors[0], Desc { archive_size: 2, ..Default::default() });
+        assert_eq!(x.chunk_descriptors[1], Desc::default());
+        assert_eq!(x.chunk_descriptors[2], Desc { source_size: 1, archive_offset: 0, ..Default::default() });
+        assert_eq!(x.metadata, vec![(String::new(), vec![]), ("k".to_string(), vec![]), (String::new(), vec![])]);
+        assert_eq!(d.unknown_fields, 1);
+        assert!(x.unknown.is_empty());
+    }
+
+    fn recipe(comp: u32, level: u32, hash_len: usize) -> Recipe {
+        Recipe {
+            enc: EncOpts::default(),
+            slack: 0,
+            order: vec![],
+            gaps: vec![],
+            raw: vec![],
+            hash_len,
+            params: Params { chunk_filter_bits: 0, min_chunk_size: 0, max_chunk_size: 1000, rolling_hash_window_size: 0, chunk_hash_length: 0, chunking_algorithm: 2 },
+            comp: Comp { compression: comp, compression_level: level },
+            metadata: vec![],
+            app_version: "codec-test".to_string(),
+            pad_byte: 0xaa,
+        }
+    }
+
+    fn requested(r: &Recipe, cuts: &[usize]) -> Requested {
+        let mut params = r.params.clone();
+        params.chunk_hash_length = r.hash_len as u32;
+        Requested { params, comp: r.comp.clone(), metadata: r.metadata.clone(), expected_cuts: Some(cuts.to_vec()) }
+    }
+
+    fn tags(issues: &[String]) -> Vec<String> {
+        let mut t: Vec<String> = issues.iter().map(|i| i.split(':').next().unwrap().to_string()).collect();
+        t.dedup();
+        t
+    }
+
+    #[test]
+    fn codec_compression_roundtrip() {
+        let data = sample_source(3, 50_000);
+        for (c, level) in [(COMP_NONE, 0), (COMP_LZMA, 6), (COMP_ZSTD, 3), (COMP_ZSTD, 19), (COMP_BROTLI, 1), (COMP_BROTLI, 11)] {
+            for d in [&data[..], &data[..1], &[][..]] {
+                let z = compress(c, level, d).unwrap();
+                assert_eq!(decompress(c, &z, d.len()).unwrap(), d, "{c} {level}");
+                assert_eq!(decompress(c, &z, 0).unwrap(), d);
+                if c != COMP_NONE && d.len() > 1000 {
+                    assert!(z.len() < d.len());
+                    assert!(decompress(c, &z[..z.len() / 2], d.len()).is_err(), "truncated {c}");
+                    assert!(decompress_capped(c, &z, d.len(), d.len() - 1).is_err(), "cap {c}");
+                    assert!(decompress(c, d, d.len()).is_err(), "garbage {c}");
+                }
+            }
+        }
+        assert!(compress(4, 1, b"x").is_err());
+        assert!(decompress(4, b"x", 1).is_err());
+        assert!(decompress(COMP_LZMA, b"", 1).is_err());
+        assert!(decompress(COMP_ZSTD, b"", 1).is_err() || decompress(COMP_ZSTD, b"", 1).unwrap().is_empty());
+    }
+
+    #[test]
+    fn codec_build_conformance_unpack_self_consistent() {
+        let source = sample_source(11, 40_000);
+        let cuts = fixed_cuts(source.len(), 1000);
+        for (c, level) in [(COMP_NONE, 0), (COMP_LZMA, 3), (COMP_ZSTD, 5), (COMP_BROTLI, 4)] {
+            for hash_len in [4usize, 17, 64] {
+                let r = recipe(c, level, hash_len);
+                let b = build_archive(&source, &cuts, &r).unwrap();
+                assert_eq!(conformance(&b.bytes, &source, &requested(&r, &cuts)), Vec::<String>::new());
+                assert_eq!(ref_unpack(&b.bytes).unwrap(), source);
+                assert!(b.dict.chunk_descriptors.len() < cuts.len(), "sample source must contain duplicate chunks");
+                if c != COMP_NONE {
+                    assert!(b.dict.chunk_descriptors.iter().any(|d| d.archive_size < d.source_size));
+                    assert!(b.dict.chunk_descriptors.iter().any(|d| d.archive_size == d.source_size));
+                }
+            }
+        }
+        // empty source
+        let r = recipe(COMP_BROTLI, 6, 64);
+        let b = build_archive(&[], &[], &r).unwrap();
+        assert_eq!(conformance(&b.bytes, &[], &requested(&r, &[])), Vec::<String>::new());
+        assert_eq!(ref_unpack(&b.bytes).unwrap(), Vec::<u8>::new());
+        assert_eq!(b.bytes.len(), b.header_len);
+        // bad inputs
+        assert!(build_archive(&source, &[], &r).is_err());
+        assert!(build_archive(&source, &[10, 10, source.len()], &r).is_err());
+        assert!(build_archive(&source, &[source.len() + 1], &r).is_err());
+        assert!(build_archive(&source, &[10], &r).is_err());
+        assert!(build_archive(&[], &[0], &r).is_err());
+        assert!(build_archive(&source, &cuts, &Recipe { hash_len: 0, ..r.clone() }).is_err());
+        assert!(build_archive(&source, &cuts, &Recipe { hash_len: 65, ..r.clone() }).is_err());
+        assert!(build_archive(&source, &cuts, &Recipe { order: vec![0, 0], ..r.clone() }).is_err());
+        assert!(build_archive(&source, &cuts, &Recipe { comp: Comp { compression: 9, compression_level: 1 }, ..r.clone() }).is_err());
+    }
+
+    #[test]
+    fn codec_conformance_flags_each_deviation() {
+        let source = sample_source(5, 20_000);
+        let cuts = fixed_cuts(source.len(), 1000);
+        let base = recipe(COMP_ZSTD, 3, 32);
+        let req = requested(&base, &cuts);
+        let check = |r: &Recipe, want: &[&str]| {
+            let b = build_archive(&source, &cuts, r).unwrap();
+            assert_eq!(ref_unpack(&b.bytes).unwrap(), source, "conforming for readers: {want:?}");
+            let got = tags(&conformance(&b.bytes, &source, &req));
+            assert_eq!(got, want, "{:?}", conformance(&b.bytes, &source, &req));
+        };
+        let n = build_archive(&source, &cuts, &base).unwrap().dict.chunk_descriptors.len();
+        check(&base, &[]);
+        check(&Recipe { enc: EncOpts { legacy_magic: true, ..Default::default() }, ..base.clone() }, &["magic"]);
+        check(&Recipe { enc: EncOpts { inject_unknown: true, ..Default::default() }, ..base.clone() }, &["dict"]);
+        check(&Recipe { enc: EncOpts { unpacked_rebuild_order: true, emit_defaults: true, ..Default::default() }, ..base.clone() }, &[]);
+        check(&Recipe { slack: 3, ..base.clone() }, &["offset"]);
+        check(&Recipe { gaps: vec![0; n - 1].into_iter().chain([5]).collect(), ..base.clone() }, &["length"]);
+        check(&Recipe { gaps: vec![2], ..base.clone() }, &["length", "desc"]);
+        check(&Recipe { order: (0..n).rev().collect(), ..base.clone() }, &["desc"]);
+        check(&Recipe { metadata: vec![("a".into(), vec![1])], ..base.clone() }, &["meta"]);
+        check(&Recipe { app_version: String::new(), ..base.clone() }, &["params"]);
+        check(&Recipe { hash_len: 31, ..base.clone() }, &["params"]);
+        check(&Recipe { comp: Comp { compression: COMP_ZSTD, compression_level: 4 }, ..base.clone() }, &["params"]);
+        // different cuts, same content
+        let mut cuts2 = cuts.clone();
+        cuts2.remove(3);
+        let b = build_archive(&source, &cuts2, &base).unwrap();
+        assert_eq!(tags(&conformance(&b.bytes, &source, &req)), ["cuts"]);
+        assert!(conformance(&b.bytes, &source, &Requested { expected_cuts: None, ..req.clone() }).is_empty());
+        // byte-level damage on a conforming archive
+        let good = build_archive(&source, &cuts, &base).unwrap();
+        let mut b = good.bytes.clone();
+        let last = b.len() - 1;
+        b[last] ^= 1;
+        assert_eq!(tags(&conformance(&b, &source, &req)), ["chunk"]);
+        assert!(ref_unpack(&b).is_err());
+        let mut b = good.bytes.clone();
+        b[good.header_len - 1] ^= 1;
+        assert_eq!(tags(&conformance(&b, &source, &req)), ["hdrsum"]);
+        assert!(ref_unpack(&b).is_err());
+        let mut b = good.bytes.clone();
+        b.pop();
+        assert_eq!(tags(&conformance(&b, &source, &req)), ["length", "chunk"]);
+        assert!(ref_unpack(&b).is_err());
+        let mut b = good.bytes.clone();
+        b.push(0);
+        assert_eq!(tags(&conformance(&b, &source, &req)), ["length"]);
+        assert!(tags(&conformance(&b[..50], &source, &req)).contains(&"dict".to_string()));
+        assert_eq!(tags(&conformance(b"NOTBITA", &source, &req)), ["magic", "dict"]);
+        assert_eq!(tags(&conformance(&[], &source, &req)), ["dict"]);
+        // other source
+        let mut other = source.clone();
+        other[1500] ^= 1;
+        assert_eq!(tags(&conformance(&good.bytes, &other, &req)), ["rebuild", "srcsum"]);
+        assert_eq!(tags(&conformance(&good.bytes, &source[..source.len() - 1], &req)), ["rebuild", "srcsum"]);
+        // dictionary-level damage (re-encoded with a valid checksum)
+        let redo = |f: &dyn Fn(&mut Dict)| {
+            let mut d = good.dict.clone();
+            f(&mut d);
+            let h = encode_header(&d, &EncOpts::default());
+            // only usable when the header length is unchanged
+            assert_eq!(h.len(), good.header_len);
+            [&h[..], &good.bytes[good.header_len..]].concat()
+        };
+        let b = redo(&|d| {
+            let k = (1..d.rebuild_order.len()).find(|&k| d.rebuild_order[k] != d.rebuild_order[k - 1]).unwrap();
+            d.rebuild_order.swap(k - 1, k)
+        });
+        assert_eq!(tags(&conformance(&b, &source, &req)), ["rebuild"]);
+        assert!(ref_unpack(&b).is_err());
+        let b = redo(&|d| d.source_checksum[0] ^= 1);
+        assert_eq!(tags(&conformance(&b, &source, &req)), ["srcsum"]);
+        assert!(ref_unpack(&b).is_err());
+        let b = redo(&|d| d.chunk_descriptors[2].checksum[0] ^= 1);
+        assert_eq!(tags(&conformance(&b, &source, &req)), ["chunk"]);
+        let b = redo(&|d| {
+            let last = d.rebuild_order.len() - 1;
+            d.rebuild_order[last] = 127
+        });
+        assert_eq!(tags(&conformance(&b, &source, &req))[0], "rebuild");
+        assert!(ref_unpack(&b).is_err());
+        // issue flood is capped
+        let flood = conformance(&good.bytes, &vec![0u8; source.len()], &Requested { params: Params::default(), ..req.clone() });
+        assert!(flood.len() < 40);
+    }
+
+    // ---------------------------------------------------------------------------------------
+    // cross-validation against bitar
+    // ---------------------------------------------------------------------------------------
+    use bitar::chunker::{Config, FilterBits, FilterConfig};
+
+    fn rt() -> tokio::runtime::Runtime {
+        tokio::runtime::Builder::new_current_thread().enable_all().build().unwrap()
+    }
+
+    fn bitar_compression(c: &Comp) -> Option<bitar::Compression> {
+        let alg = match c.compression {
+            COMP_NONE => return None,
+            COMP_LZMA => bitar::CompressionAlgorithm::Lzma,
+            COMP_ZSTD => bitar::CompressionAlgorithm::Zstd,
+            COMP_BROTLI => bitar::CompressionAlgorithm::Brotli,
+            _ => unreachable!(),
+        };
+        Some(bitar::Compression::try_new(alg, c.compression_level).unwrap())
+    }
+
+    fn params_of(cfg: &Config, hash_len: usize) -> Params {
+        let (algo, f) = match cfg {
+            Config::BuzHash(f) => (0, Some(f)),
+            Config::RollSum(f) => (1, Some(f)),
+            Config::FixedSize(n) => {
+                return Params { max_chunk_size: *n as u32, chunk_hash_length: hash_len as u32, chunking_algorithm: 2, ..Default::default() }
+            }
+        };
+        let f = f.unwrap();
+        Params {
+            chunk_filter_bits: f.filter_bits.bits(),
+            min_chunk_size: f.min_chunk_size as u32,
+            max_chunk_size: f.max_chunk_size as u32,
+            rolling_hash_window_size: f.window_size as u32,
+            chunk_hash_length: hash_len as u32,
+            chunking_algorithm: algo,
+        }
+    }
+
+    fn config_of(p: &Params) -> Config {
+        let f = FilterConfig {
+            filter_bits: FilterBits::from_bits(p.chunk_filter_bits),
+            min_chunk_size: p.min_chunk_size as usize,
+            max_chunk_size: p.max_chunk_size as usize,
+            window_size: p.rolling_hash_window_size as usize,
+        };
+        match p.chunking_algorithm {
+            0 => Config::BuzHash(f),
+            1 => Config::RollSum(f),
+            2 => Config::FixedSize(p.max_chunk_size as usize),
+            _ => unreachable!(),
+        }
+    }
+
+    fn bitar_create(source: &[u8], cfg: &Config, comp: &Comp, hash_len: usize, metadata: &[(String, Vec<u8>)]) -> Vec<u8> {
+        let options = bitar::api::compress::CreateArchiveOptions {
+            chunker_config: cfg.clone(),
+            chunk_hash_length: hash_len,
+            compression: bitar_compression(comp),
+            metadata: metadata.iter().cloned().collect(),
+            num_chunk_buffers: 4,
+            temporary_file_override: None,
+        };
+        let mut out: Vec<u8> = Vec::new();
+        rt().block_on(async { bitar::api::compress::create_archive(source, &mut out, &options).await.unwrap() });
+        out
+    }
+
+    #[test]
+    fn codec_reads_archives_written_by_bitar() {
+        let filter = FilterConfig { filter_bits: FilterBits::from_bits(9), min_chunk_size: 128, max_chunk_size: 4096, window_size: 20 };
+        let cfgs = [Config::FixedSize(1000), Config::RollSum(filter), Config::BuzHash(filter)];
+        let comps = [(COMP_NONE, 0), (COMP_BROTLI, 5), (COMP_ZSTD, 7), (COMP_LZMA, 4)];
+        let metas: [Vec<(String, Vec<u8>)>; 2] =
+            [vec![], vec![("zeta".to_string(), vec![0, 255, 1]), ("".to_string(), vec![]), ("alpha".to_string(), vec![b'v'; 300])]];
+        let mut n = 0;
+        for (si, source) in [sample_source(21, 60_000), vec![], vec![9u8], vec![0u8; 30_000]].iter().enumerate() {
+            for cfg in &cfgs {
+                for &(c, level) in &comps {
+                    n += 1;
+                    let comp = Comp { compression: c, compression_level: level };
+                    let hash_len = [64, 4, 20][n % 3];
+                    let meta = &metas[n % 2];
+                    let bytes = bitar_create(source, cfg, &comp, hash_len, meta);
+                    let what = format!("source {si} {cfg:?} {comp:?} hash_len {hash_len}");
+                    let d = decode(&bytes).unwrap_or_else(|e| panic!("{what}: {e}"));
+                    assert!(d.header_checksum_ok && d.unknown_fields == 0 && d.rebuild_order_packed, "{what}");
+                    assert_eq!(d.magic, *MAGIC);
+                    assert_eq!(d.dict.application_version, bitar::api::compress::PKG_VERSION);
+                    let req = Requested { params: params_of(cfg, hash_len), comp: comp.clone(), metadata: meta.clone(), expected_cuts: None };
+                    assert_eq!(conformance(&bytes, source, &req), Vec::<String>::new(), "{what}");
+                    assert_eq!(&ref_unpack(&bytes).unwrap(), source, "{what}");
+                    if c != COMP_NONE && source.len() > 1000 {
+                        assert!(d.dict.chunk_descriptors.iter().any(|x| x.archive_size < x.source_size), "{what}: nothing compressed");
+                    }
+                    // for FixedSize the boundaries are known without a reference chunker
+                    if let Config::FixedSize(sz) = cfg {
+                        let req = Requested { expected_cuts: Some(fixed_cuts(source.len(), *sz)), ..req.clone() };
+                        assert_eq!(conformance(&bytes, source, &req), Vec::<String>::new(), "{what}");
+                    }
+                    // this encoder reproduces bitar's header bit for bit from the decoded dictionary
+                    // (same field order, default omission, packed rebuild order; metadata sorted by key)
+                    assert_eq!(encode_header(&d.dict, &EncOpts::default()), &bytes[..d.header_len], "{what}");
+                    // and the whole archive when fed the same cuts
+                    let cuts: Vec<usize> = d
+                        .dict
+                        .rebuild_order
+                        .iter()
+                        .scan(0usize, |p, &i| {
+                            *p += d.dict.chunk_descriptors[i as usize].source_size as usize;
+                            Some(*p)
+                        })
+                        .collect();
+                    let mut sorted = meta.clone();
+                    sorted.sort();
+                    let r = Recipe { params: req.params.clone(), comp: comp.clone(), metadata: sorted, app_version: d.dict.application_version.clone(), ..recipe(c, level, hash_len) };
+                    assert!(build_archive(source, &cuts, &r).unwrap().bytes == bytes, "{what}: build_archive differs from bitar");
+                    // a requested-options mismatch is noticed
+                    let wrong = Requested { comp: Comp { compression: c, compression_level: level + 1 }, ..req.clone() };
+                    assert_eq!(tags(&conformance(&bytes, source, &wrong)), ["params"]);
+                }
+            }
+        }
+        assert_eq!(n, 48);
+    }
+
+    async fn bitar_clone<R: bitar::archive_reader::ArchiveReader>(mut archive: bitar::Archive<R>) -> Vec<u8>
+    where
+        R::Error: std::fmt::Debug,
+    {
+        use futures_util::StreamExt;
+        let mut output_buf = vec![];
+        {
+            let mut output = bitar::CloneOutput::new(std::io::Cursor::new(&mut output_buf), archive.build_source_index());
+            let mut chunk_stream = archive.chunk_stream(output.chunks());
+            while let Some(result) = chunk_stream.next().await {
+                let verified = result.expect("chunk").decompress().expect("decompress").verify().expect("verify");
+                output.feed(&verified).await.unwrap();
+            }
+        }
+        output_buf
+    }
+
+    fn bitar_opens(source: &[u8], cuts: &[usize], r: &Recipe) {
+        let b = build_archive(source, cuts, r).unwrap();
+        assert_eq!(ref_unpack(&b.bytes).unwrap(), source);
+        let d = decode(&b.bytes).unwrap();
+        let mut stripped = d.dict.clone();
+        stripped.unknown.clear();
+        assert_eq!(stripped, b.dict);
+        assert_eq!((d.header_len, d.chunk_data_offset), (b.header_len, b.chunk_data_offset));
+        assert_eq!(b.chunk_data_offset, (b.header_len + r.slack) as u64);
+        rt().block_on(async {
+            let a = bitar::Archive::try_init(bitar::archive_reader::IoReader::new(std::io::Cursor::new(b.bytes.clone())))
+                .await
+                .unwrap_or_else(|e| panic!("bitar rejects {r:?}: {e:?}"));
+            assert_eq!(a.total_source_size(), source.len() as u64);
+            assert_eq!(a.source_checksum().slice(), &blake2b512(source)[..]);
+            assert_eq!(a.chunk_hash_length(), r.hash_len);
+            assert_eq!(a.chunk_data_offset(), b.chunk_data_offset);
+            assert_eq!(a.header_size(), b.header_len);
+            assert_eq!(a.header_checksum().slice(), &b.bytes[b.header_len - 64..b.header_len]);
+            assert_eq!(a.built_with_version(), r.app_version);
+            assert_eq!(*a.chunker_config(), config_of(&r.params));
+            assert_eq!(a.chunk_compression(), bitar_compression(&r.comp));
+            assert_eq!(a.total_chunks(), cuts.len());
+            assert_eq!(a.unique_chunks(), b.dict.chunk_descriptors.len());
+            let got_meta: Vec<(String, Vec<u8>)> = a.metadata_iter().map(|(k, v)| (k.to_string(), v.to_vec())).collect();
+            let want_meta: Vec<(String, Vec<u8>)> = as_map(&r.metadata).into_iter().map(|(k, v)| (k.to_string(), v.to_vec())).collect();
+            assert_eq!(got_meta, want_meta);
+            assert_eq!(a.chunk_descriptors().len(), b.dict.chunk_descriptors.len());
+            for (x, y) in a.chunk_descriptors().iter().zip(&b.dict.chunk_descriptors) {
+                assert_eq!(x.checksum.slice(), &y.checksum[..]);
+                assert_eq!(x.archive_size, y.archive_size as usize);
+                assert_eq!(x.archive_offset, b.chunk_data_offset + y.archive_offset);
+                assert_eq!(x.source_size, y.source_size);
+                // the stored bytes are where the descriptor says
+                let s = x.archive_offset as usize;
+                let stored = &b.bytes[s..s + x.archive_size];
+                let chunk = if y.archive_size == y.source_size { stored.to_vec() } else { decompress(r.comp.compression, stored, 0).unwrap() };
+                assert_eq!(&blake2b512(&chunk)[..r.hash_len], &y.checksum[..]);
+            }
+            let order: Vec<u32> = a
+                .iter_source_chunks()
+                .map(|(_, cd)| a.chunk_descriptors().iter().position(|x| x == cd).unwrap() as u32)
+                .collect();
+            assert_eq!(order, b.dict.rebuild_order);
+            assert_eq!(bitar_clone(a).await, source, "bitar clone of {r:?}");
+        });
+    }
+
+    #[test]
+    fn codec_archives_are_opened_by_bitar() {
+        let source = sample_source(77, 30_000);
+        let cuts = fixed_cuts(source.len(), 1000);
+        let base = recipe(COMP_BROTLI, 5, 64);
+        let n = build_archive(&source, &cuts, &base).unwrap().dict.chunk_descriptors.len();
+        let mut rng = Rng(99);
+        let mut shuffled: Vec<usize> = (0..n).collect();
+        for i in (1..n).rev() {
+            shuffled.swap(i, (rng.next() % (i as u64 + 1)) as usize);
+        }
+        let all_enc = EncOpts { legacy_magic: true, chunk_data_offset: Some(1), inject_unknown: true, unpacked_rebuild_order: true, emit_defaults: true };
+        let meta = vec![("b".to_string(), vec![1, 2]), ("a".to_string(), vec![]), ("b".to_string(), vec![0xff; 200]), ("".to_string(), vec![0])];
+        let recipes = vec![
+            base.clone(),
+            Recipe { enc: EncOpts { legacy_magic: true, ..Default::default() }, ..base.clone() },
+            Recipe { slack: 1, ..base.clone() },
+            Recipe { slack: 4097, pad_byte: 0, ..base.clone() },
+            Recipe { order: (0..n).rev().collect(), ..base.clone() },
+            Recipe { order: shuffled.clone(), gaps: (0..n).map(|i| i % 4 * 7).collect(), ..base.clone() },
+            Recipe { gaps: vec![100], ..base.clone() },
+            Recipe { enc: EncOpts { inject_unknown: true, ..Default::default() }, ..base.clone() },
+            Recipe { enc: EncOpts { unpacked_rebuild_order: true, ..Default::default() }, ..base.clone() },
+            Recipe { enc: EncOpts { emit_defaults: true, ..Default::default() }, ..base.clone() },
+            Recipe { raw: vec![true; n], ..base.clone() },
+            Recipe { raw: (0..n).map(|i| i % 2 == 0).collect(), ..base.clone() },
+            Recipe { hash_len: 4, ..base.clone() },
+            Recipe { hash_len: 33, ..base.clone() },
+            Recipe { metadata: meta.clone(), ..base.clone() },
+            Recipe { comp: Comp { compression: COMP_NONE, compression_level: 0 }, ..base.clone() },
+            Recipe { comp: Comp { compression: COMP_ZSTD, compression_level: 9 }, ..base.clone() },
+            Recipe { comp: Comp { compression: COMP_LZMA, compression_level: 2 }, ..base.clone() },
+            Recipe {
+                params: Params { chunk_filter_bits: 13, min_chunk_size: 77, max_chunk_size: 99999, rolling_hash_window_size: 48, chunk_hash_length: 1, chunking_algorithm: 0 },
+                ..base.clone()
+            },
+            Recipe {
+                params: Params { chunk_filter_bits: 1, min_chunk_size: 0, max_chunk_size: u32::MAX, rolling_hash_window_size: 1, chunk_hash_length: 0, chunking_algorithm: 1 },
+                app_version: String::new(),
+                ..base.clone()
+            },
+            Recipe {
+                enc: all_enc.clone(),
+                slack: 13,
+                order: shuffled,
+                gaps: vec![3; n],
+                raw: (0..n).map(|i| i % 3 == 0).collect(),
+                hash_len: 4,
+                metadata: meta.clone(),
+                comp: Comp { compression: COMP_ZSTD, compression_level: 1 },
+                ..base.clone()
+            },
+        ];
+        for r in &recipes {
+            bitar_opens(&source, &cuts, r);
+        }
+        // zero chunks, one chunk, irregular cuts with one-byte chunks
+        for r in [&base, &Recipe { enc: all_enc.clone(), slack: 5, metadata: meta.clone(), ..base.clone() }] {
+            bitar_opens(&[], &[], r);
+            bitar_opens(&source, &[source.len()], r);
+            bitar_opens(&source[..5000], &[1, 2, 3, 1000, 1001, 4999, 5000], r);
+            bitar_opens(&[0u8; 4000], &fixed_cuts(4000, 100), r);
+        }
+    }
+
+    #[test]
+    fn codec_golden_archives() {
+        // first bytes of the source checksums listed in bitar/tests/common.rs (the sources themselves
+        // are not in the repository; random.img / zero.img belong to the chunking tests)
+        const RAND_B2SUM: [u8; 8] = [0x90, 0x40, 0x55, 0x51, 0x4a, 0xd3, 0x89, 0x66];
+        const ZERO_B2SUM: [u8; 8] = [0xcd, 0x47, 0x10, 0x39, 0x0f, 0x85, 0x42, 0xc6];
+        let dir = std::path::Path::new("/repo/bitar/tests/resources");
+        let mut names: Vec<String> = std::fs::read_dir(dir)
+            .unwrap()
+            .map(|e| e.unwrap().file_name().into_string().unwrap())
+            .filter(|n| n.ends_with(".cba"))
+            .collect();
+        names.sort();
+        assert_eq!(names.len(), 7, "{names:?}");
+        // pass 1: everything decodes; the intact ones unpack
+        let mut sources: HashMap<Vec<u8>, Vec<u8>> = HashMap::new();
+        for name in &names {
+            let bytes = std::fs::read(dir.join(name)).unwrap();
+            let d = decode(&bytes).unwrap_or_else(|e| panic!("{name}: {e}"));
+            assert_eq!(d.header_checksum_ok, !name.contains("corrupt-header"), "{name}");
+            assert_eq!(d.unknown_fields, 0, "{name}");
+            // the 0.1.1 writer emitted rebuild_order unpacked
+            assert_eq!(d.rebuild_order_packed, !name.contains("0_1_1"), "{name}");
+            assert_eq!(d.magic, if name.contains("0_1_1") { *LEGACY_MAGIC } else { *MAGIC }, "{name}");
+            assert_eq!(d.chunk_data_offset, d.header_len as u64, "{name}");
+            assert_eq!(d.dict.source_checksum.len(), 64, "{name}");
+            assert!(!d.dict.application_version.is_empty(), "{name}");
+            if let Some(want_comp) = ["none", "lzma", "zstd", "brotli"].iter().position(|c| name.contains(c)) {
+                assert_eq!(d.dict.chunk_compression.as_ref().unwrap().compression, want_comp as u32, "{name}");
+            }
+            if !name.contains("trunc") {
+                let want = if name.starts_with("rand") { RAND_B2SUM } else { ZERO_B2SUM };
+                assert_eq!(d.dict.source_checksum[..8], want, "{name}");
+            }
+            // re-encoding the decoded dictionary reproduces the header bit for bit
+            if d.header_checksum_ok {
+                let o = EncOpts { legacy_magic: d.magic == *LEGACY_MAGIC, unpacked_rebuild_order: !d.rebuild_order_packed, ..Default::default() };
+                assert!(encode_header(&d.dict, &o)[..] == bytes[..d.header_len], "{name}");
+            }
+            let r = ref_unpack(&bytes);
+            if name.contains("corrupt-header") {
+                assert_eq!(r.unwrap_err(), "header checksum mismatch", "{name}");
+            } else if name.contains("corrupt-chunk") {
+                assert!(r.unwrap_err().contains("checksum mismatch"), "{name}");
+            } else if name.contains("trunc") {
+                assert!(r.unwrap_err().contains("outside the file"), "{name}");
+            } else {
+                let out = r.unwrap_or_else(|e| panic!("{name}: {e}"));
+                assert_eq!(out.len() as u64, d.dict.source_total_size, "{name}");
+                assert_eq!(blake2b512(&out)[..], d.dict.source_checksum[..], "{name}");
+                if name.starts_with("zero") {
+                    assert!(out.iter().all(|&b| b == 0), "{name}");
+                }
+                sources.insert(d.dict.source_checksum[..8].to_vec(), out);
+            }
+        }
+        assert_eq!(sources.len(), 2);
+        // pass 2: today's conformance checklist against the recovered sources
+        for name in &names {
+            let bytes = std::fs::read(dir.join(name)).unwrap();
+            let d = decode(&bytes).unwrap();
+            let Some(source) = sources.get(&d.dict.source_checksum[..8]) else {
+                assert!(name.contains("trunc"), "{name}");
+                continue;
+            };
+            let req = Requested { params: d.dict.chunker_params.clone().unwrap(), comp: d.dict.chunk_compression.clone().unwrap(), metadata: vec![], expected_cuts: None };
+            let issues = tags(&conformance(&bytes, source, &req));
+            if name.contains("corrupt-header") {
+                // the corrupted byte lies inside the dictionary's source_checksum field
+                assert_eq!(issues, ["hdrsum", "srcsum"], "{name}: {:?}", conformance(&bytes, source, &req));
+            } else if name.contains("corrupt-chunk") {
+                // (the file is also one byte shorter than the intact archive)
+                assert_eq!(issues, ["length", "chunk"], "{name}: {:?}", conformance(&bytes, source, &req));
+            } else if name.contains("0_1_1") {
+                assert_eq!(issues, ["magic"], "{name}"); // old writers used the legacy magic
+            } else {
+                assert_eq!(issues, Vec::<String>::new(), "{name}");
+            }
+        }
+    }
+
+    /// No panics (the test profile has overflow checks and debug assertions on), whatever the input.
+    #[test]
+    fn codec_mutated_archives_do_not_panic() {
+        let source = sample_source(31, 6000);
+        let cuts = fixed_cuts(source.len(), 500);
+        let mut rng = Rng(4242);
+        let mut rejected = 0usize;
+        let mut total = 0usize;
+        for (c, level) in [(COMP_NONE, 0), (COMP_LZMA, 1), (COMP_ZSTD, 1), (COMP_BROTLI, 1)] {
+            let r = Recipe { metadata: vec![("k".into(), vec![1, 2, 3])], ..recipe(c, level, 8) };
+            let good = build_archive(&source, &cuts, &r).unwrap();
+            let req = requested(&r, &cuts);
+            for round in 0..1500 {
+                let mut b = good.bytes.clone();
+                match round % 5 {
+                    // header byte
+                    0 | 1 => {
+                        let i = (rng.next() as usize) % good.header_len;
+                        b[i] = (rng.next() >> 8) as u8;
+                    }
+                    // dictionary byte with a fixed-up checksum, so that the damage reaches the later checks
+                    2 | 3 => {
+                        let i = PRE_HEADER_LEN + (rng.next() as usize) % (good.header_len - PRE_HEADER_LEN - TRAILER_LEN);
+                        b[i] ^= 1 << (rng.next() % 8);
+                        let sum = blake2b512(&b[..good.header_len - 64]);
+                        b[good.header_len - 64..good.header_len].copy_from_slice(&sum);
+                    }
+                    // payload byte or truncation
+                    _ => {
+                        if rng.next() % 2 == 0 && b.len() > good.header_len {
+                            let i = good.header_len + (rng.next() as usize) % (b.len() - good.header_len);
+                            b[i] ^= 1 << (rng.next() % 8);
+                        } else {
+                            b.truncate((rng.next() as usize) % b.len());
+                        }
+                    }
+                }
+                total += 1;
+                let _ = decode(&b);
+                let issues = conformance(&b, &source, &req);
+                let unpacked = ref_unpack(&b);
+                if b != good.bytes {
+                    // an archive that differs from the conforming one is either flagged or still unpacks to the source
+                    match &unpacked {
+                        Ok(out) => assert!(*out == source, "round {round}: damaged archive unpacks to something else"),
+                        Err(_) => assert!(!issues.is_empty(), "round {round}: ref_unpack fails but conformance is silent"),
+                    }
+                    if !issues.is_empty() {
+                        rejected += 1;
+                    }
+                }
+            }
+        }
+        assert!(rejected * 10 > total * 9, "{rejected} of {total}");
+        // extreme dictionary sizes and offsets
+        for sz in [0u64, 1, 71, 72, u64::MAX, u64::MAX - 86, 1 << 32, 1 << 63] {
+            let mut b = encode_header(&Dict::default(), &EncOpts::default());
+            b[6..14].copy_from_slice(&sz.to_le_bytes());
+            let _ = decode(&b);
+            let _ = ref_unpack(&b);
+            let _ = conformance(&b, &[], &requested(&recipe(0, 0, 64), &[]));
+        }
+        let huge = Dict {
+            source_total_size: u64::MAX,
+            rebuild_order: vec![0, 1, 1, u32::MAX],
+            chunk_descriptors: vec![
+                Desc { checksum: vec![0; 64], archive_size: u32::MAX, archive_offset: u64::MAX, source_size: u32::MAX },
+                Desc { checksum: vec![0; 65], archive_size: 1, archive_offset: u64::MAX - 1, source_size: u32::MAX },
+            ],
+            chunk_compression: Some(Comp { compression: 77, compression_level: u32::MAX }),
+            ..Default::default()
+        };
+        for off in [0u64, 86, u64::MAX, u64::MAX - 1] {
+            let b = encode_header(&huge, &EncOpts { chunk_data_offset: Some(off), ..Default::default() });
+            assert!(decode(&b).is_ok());
+            assert!(ref_unpack(&b).is_err());
+            assert!(!conformance(&b, &source, &requested(&recipe(0, 0, 64), &[])).is_empty());
+        }
+    }
 }
